@@ -65,6 +65,8 @@ func peelIface(v ssa.Value) ssa.Value {
 			v = x.X
 		case *ssa.ChangeType:
 			v = x.X
+		case *ssa.ChangeInterface:
+			v = x.X
 		default:
 			return v
 		}
